@@ -1778,8 +1778,8 @@ Proof.
       destruct (tag_chunks_bound _ _ _ Hx) as (idx & Hidx & Etag). rewrite Ex in Etag.
       assert (Eidx : N.to_nat m = idx) by lia.
       rewrite Dn, G. rewrite Eidx. rewrite (Hget idx Hidx).
-      destruct (stream_from_restart hash ri nb cs B Hri Hck Hwf d st rest idx _ Dri EB Hidx R Hb eq_refl)
-        as [St Fu].
+      pose proof (stream_from_restart ri cs B Hri Hck Hwf d st rest idx _ Dri EB Hidx R Hb eq_refl)
+        as SF. cbv zeta in SF. destruct SF as [St Fu].
       unfold set_lo_offset.
       rewrite (pr_loop_stream B d k S _ _ _ St Fu). f_equal.
       rewrite <- (firstn_skipn idx cs) at 2. rewrite concat_app. symmetry.
@@ -1814,9 +1814,220 @@ Proof.
   split; [exact R|]. unfold point_read. now rewrite R.
 Qed.
 
-(** corollary: what [Memtable::get]-style lookup ([slab_get]) returns *)
+(** [slab_get] (Memtable::get) is characterised by the same scan: both are [newest] on
+    sorted lists (Proofs/Lookup.v [slab_get_newest]); [scan_spec] is the block-level
+    counterpart. *)
+
+(** ** What goes wrong without the side conditions *)
+
+(** a tombstone built with a value ([InternalValue::from_components(k, v, s, Tombstone)],
+    as the crate's own test [data_block_point_read_simple] does) loses the value:
+    data_block/mod.rs:212 / :257 skip it. *)
+Theorem datablock_roundtrip_tomb_value_refuted :
+  exists hash ri nb items,
+    items <> [] /\ sorted_b items = true /\ Forall entry_wf items /\ 1 <= ri <= 255 /    block_small (encode_block hash ri nb items) /    decode_all (encode_block hash ri nb items) <> Some items /    decode_all (encode_block hash ri nb items)
+      = Some (map (fun e => if is_tomb e then mkE (ukey e) (seq e) (ty e) [] else e) items).
+Proof.
+  exists (fun _ => 0), 16, 0, [mkE [100] 1 Tomb [100]].
+  split; [discriminate|]. split; [reflexivity|].
+  split; [repeat constructor; vm_compute; try reflexivity; lia|].
+  split; [lia|]. split; [vm_compute; reflexivity|].
+  split; [vm_compute; discriminate|vm_compute; reflexivity].
+Qed.
+
+(** * N. Block header (block/header.rs) *)
+
+Lemma block_type_of_tag_tag t : block_type_of_tag (block_type_tag t) = Some t.
+Proof. destruct t; reflexivity. Qed.
+
+Theorem header_roundtrip xxh h rest :
+  h_checksum h < 2 ^ 128 -> h_data_length h < 2 ^ 32 -> h_uncompressed_length h < 2 ^ 32 ->
+  decode_header xxh (encode_header xxh h ++ rest) = Some (h, rest).
+Proof.
+  intros Hc Hd Hu. unfold decode_header, encode_header.
+  set (chk := write_u32_le (trunc 32 (xxh (header_body h)))).
+  assert (LB : length (header_body h) = 29%nat).
+  { unfold header_body. rewrite !app_length. unfold write_u8, write_u128_le, write_u32_le.
+    rewrite !le_bytes_length. reflexivity. }
+  assert (FB : firstn 29 ((header_body h ++ chk) ++ rest) = header_body h).
+  { rewrite <- LB, <- app_assoc. apply firstn_app_len. }
+  rewrite FB. unfold header_body at 1. rewrite <- !app_assoc.
+  change 4%nat with (length MAGIC_BYTES). rewrite take_bytes_app.
+  change (list_N_eqb MAGIC_BYTES MAGIC_BYTES) with true. cbn [negb].
+  rewrite read_write_u8 by (destruct (h_type h); cbn; lia).
+  rewrite block_type_of_tag_tag.
+  unfold read_u128_le, write_u128_le. rewrite (le_roundtrip _ 16 _ Hc).
+  unfold read_u32_le, write_u32_le. rewrite (le_roundtrip _ 4 _ Hd), (le_roundtrip _ 4 _ Hu).
+  unfold chk, write_u32_le.
+  rewrite le_roundtrip by (unfold trunc; apply N.mod_lt; apply pow2_nz).
+  rewrite N.eqb_refl. destruct h; reflexivity.
+Qed.
+
+(** header.rs test [block_header_serde_roundtrip] (with a stand-in for xxh3) *)
+Example header_ex :
+  let x := fun l : list N => fold_left (fun a b => a * 257 + b) l 1 in
+  let h := mkH BData 5 252356 124124124 in
+  length (encode_header x h) = header_serialized_len /  decode_header x (encode_header x h) = Some (h, []).
+Proof. vm_compute. split; reflexivity. Qed.
+
+(** * O. Replays of the crate's unit tests (data_block/mod.rs) and instances *)
+
+(** a stand-in hash; the theorems hold for every hash function *)
+Definition toy_hash (k : key) : N := fold_left (fun a b => (a * 31 + b) mod 2 ^ 64) k 7.
+Definition SEQNO_MAX : N := 2 ^ 64 - 1.
+
+Definition s_pla_earth_fact : key := [112;108;97;58;101;97;114;116;104;58;102;97;99;116].
+Definition s_earth : list N := [101;97;97;97;97;97;97;97;97;97;114;116;104].
+Definition s_yyy : key := [121;121;121].
+
+(** [data_block_point_read_one] *)
+Example data_block_point_read_one :
+  let items := [mkE s_pla_earth_fact 0 Value s_earth] in
+  let B := encode_block toy_hash 16 0 items in
+  block_len B = Some 1 /\ length B = 63%nat /  point_read toy_hash B s_pla_earth_fact SEQNO_MAX = Some (mkE s_pla_earth_fact 0 Value s_earth) /  point_read_res toy_hash B s_yyy SEQNO_MAX = Some None /  decode_all B = Some items.
+Proof. vm_compute. repeat split. Qed.
+
+(** [data_block_point_read_simple]: restart intervals 1..16; note the tombstone "d" with a
+    value, which the block does not keep *)
+Example data_block_point_read_simple :
+  let items := [mkE [98] 0 Value [98]; mkE [99] 0 Value [99]; mkE [100] 1 Tomb [100];
+                mkE [101] 0 Value [101]; mkE [102] 0 Value [102]] in
+  forallb (fun ri =>
+    let B := encode_block toy_hash ri 0 items in
+    match point_read_res toy_hash B [97] SEQNO_MAX, point_read_res toy_hash B [98] SEQNO_MAX,
+          point_read_res toy_hash B [122] SEQNO_MAX, point_read_res toy_hash B [100] SEQNO_MAX with
+    | Some None, Some (Some e), Some None, Some (Some t) =>
+        entry_eqb e (mkE [98] 0 Value [98]) && entry_eqb t (mkE [100] 1 Tomb [])
+    | _, _, _, _ => false
+    end) [1;2;3;4;5;6;7;8;9;10;11;12;13;14;15;16] = true.
+Proof. vm_compute. reflexivity. Qed.
+
+(** [data_block_point_read_dense]: restart interval 1, four binary index pointers *)
+Example data_block_point_read_dense :
+  let items := [mkE [97] 3 Value [97]; mkE [98] 2 Value [98]; mkE [99] 1 Value [99];
+                mkE [100] 65 Value [100]] in
+  let B := encode_block toy_hash 1 0 items in
+  option_map t_binlen (read_trailer B) = Some 4 /  map (fun e => point_read toy_hash B (ukey e) SEQNO_MAX) items = map Some items /  point_read_res toy_hash B s_yyy SEQNO_MAX = Some None.
+Proof. vm_compute. repeat split. Qed.
+
+(** [data_block_mvcc_read_first] and [data_block_vhandle] *)
+Example data_block_mvcc_read_first :
+  let it := mkE [104;101;108;108;111] 0 Value [119;111;114;108;100] in
+  let vh := mkE [97;98;99] 1 Ind [119;111;114;108;100] in
+  forallb (fun ri =>
+    match point_read toy_hash (encode_block toy_hash ri 0 [it]) (ukey it) 777,
+          point_read toy_hash (encode_block toy_hash ri 0 [vh]) (ukey vh) 777,
+          point_read_res toy_hash (encode_block toy_hash ri 0 [vh]) (ukey vh) 1 with
+    | Some a, Some b, Some None => entry_eqb a it && entry_eqb b vh
+    | _, _, _ => false
+    end) [1;2;3;4;5;6;7;8;9;10;11;12;13;14;15;16] = true.
+Proof. vm_compute. reflexivity. Qed.
+
+(** [data_block_point_read_fuzz_2]: MVCC versions of one key across restart intervals *)
+Example data_block_point_read_fuzz_2 :
+  let items := [mkE [0] 5 Value []; mkE [0] 4 Tomb []; mkE [0] 3 Value []; mkE [0] 0 Value []] in
+  let B := encode_block toy_hash 2 0 items in
+  block_len B = Some 4 /\ get_hash_index_reader B = Some None /  map (fun e => point_read toy_hash B (ukey e) (seq e + 1)) items = map Some items /  point_read_res toy_hash B s_yyy SEQNO_MAX = Some None.
+Proof. vm_compute. repeat split. Qed.
+
+(** [data_block_point_read_shadowing]: hash ratio 1.33 on 5 items = 6 buckets; the newest
+    version of "pla:venus:fact" is the tombstone. Also [data_block_point_read_dense_mvcc_with_hash]. *)
+Example data_block_point_read_shadowing :
+  let venus_fact := [112;108;97;58;118;101;110;117;115;58;102;97;99;116] in
+  let items :=
+    [mkE [112;108;97;58;115;97;116;117;114;110;58;102;97;99;116] 0 Value
+         [83;97;116;117;114;110;32;105;115;32;112;114;101;116;116;121;32;98;105;103];
+     mkE [112;108;97;58;115;97;116;117;114;110;58;110;97;109;101] 0 Value [83;97;116;117;114;110];
+     mkE venus_fact 1 Tomb [];
+     mkE venus_fact 0 Value [86;101;110;117;115;32;101;120;105;115;116;115];
+     mkE [112;108;97;58;118;101;110;117;115;58;110;97;109;101] 0 Value [86;101;110;117;115]] in
+  let B := encode_block toy_hash 16 6 items in
+  option_map (option_map (@length N)) (get_hash_index_reader B) = Some (Some 6%nat) /  point_read toy_hash B venus_fact SEQNO_MAX = Some (mkE venus_fact 1 Tomb []) /  point_read toy_hash B venus_fact 1 = Some (mkE venus_fact 0 Value [86;101;110;117;115;32;101;120;105;115;116;115]) /  decode_all B = Some items /  let items2 := [mkE [97] 3 Value [97]; mkE [97] 2 Value [97]; mkE [97] 1 Value [97];
+                 mkE [98] 65 Value [98]] in
+  let B2 := encode_block toy_hash 1 5 items2 in
+  map (fun e => point_read toy_hash B2 (ukey e) (seq e + 1)) items2 = map Some items2 /  point_read_res toy_hash B2 s_yyy SEQNO_MAX = Some None.
+Proof. vm_compute. repeat split. Qed.
+
+(** hash_index/mod.rs tests [hash_index_build_conflict], [_same_offset], [_mix],
+    [hash_index_read_conflict] (one bucket: independent of the hash) *)
+Example hash_index_tests :
+  let h0 := [MARKER_FREE] in
+  hash_set toy_hash (hash_set toy_hash h0 [97] 5) [98] 8 = [255] /  hash_set toy_hash (hash_set toy_hash h0 [97] 5) [98] 5 = [5] /  hash_set toy_hash (hash_set toy_hash (hash_set toy_hash h0 [97] 5) [98] 5) [99] 6 = [255] /  hash_get toy_hash [255] [99] = MARKER_CONFLICT /  hash_get toy_hash [5] [98] = 5.
+Proof. vm_compute. repeat split. Qed.
+
+(** all three paths of [point_read] in one block: a FREE bucket, a CONFLICT bucket and a
+    pointer bucket all occur (4 buckets, 3 restart intervals) *)
+Example point_read_three_paths :
+  let items := [mkE [97] 9 Value [1]; mkE [97] 4 Value [2]; mkE [98] 7 Tomb []; mkE [99] 1 Value [3];
+                mkE [100] 2 Value [4]; mkE [101] 3 Value [5]] in
+  let B := encode_block toy_hash 2 4 items in
+  get_hash_index_reader B = Some (Some [255; 254; 2; 0]) /  map (fun k => hash_get toy_hash [255; 254; 2; 0] [k]) [97; 98; 99; 100; 101; 102]
+    = [0; 255; 255; 255; 2; 254] /  map (fun k => point_read toy_hash B [k] 8) [97; 98; 99; 100; 101; 102]
+    = map (fun k => newest [k] 8 items) [97; 98; 99; 100; 101; 102].
+Proof. vm_compute. repeat split. Qed.
+
+(** instances of the main theorems' hypotheses *)
+Example datablock_theorems_ex :
+  let items := [mkE [97] 9 Value [1]; mkE [97] 4 Value [2]; mkE [98] 7 Tomb []; mkE [99] 1 Ind [3;4]] in
+  items <> [] /\ sorted_b items = true /\ forallb entry_wfb items = true /  block_small (encode_block toy_hash 2 5 items) /  bytes_wfb (encode_block toy_hash 2 5 items) = true /  decode_all (encode_block toy_hash 2 5 items) = Some items /  point_read toy_hash (encode_block toy_hash 2 5 items) [97] 9 = newest [97] 9 items.
+Proof. vm_compute. repeat split; discriminate. Qed.
+
+(** ** Reverse and mixed iteration (model only: executable, checked on instances) *)
+
+(** [data_block_ping_pong_fuzz_1]: code [1, 0] = next_back, then next *)
+Example data_block_ping_pong_fuzz_1 :
+  let a := mkE [111] 8602264972526186597 Value [119] in
+  let b := mkE [121;120;99] 11426548769907 Value [101;101;101;101;101;101;101;101;101;101;101] in
+  ping_pong [false; true] (encode_block toy_hash 1 0 [a; b]) = Some [Some b; Some a].
+Proof. vm_compute. reflexivity. Qed.
+
+(** the decoder consumed from both ends behaves as a deque over the items: checked for
+    every ping-pong code of length n+1 over n = 1..5 items and restart intervals 1..3 *)
+Fixpoint deque_spec (code : list bool) (l : list entry) : list (option entry) :=
+  match code with
+  | [] => []
+  | true :: c =>
+      match l with [] => None :: deque_spec c l | x :: l' => Some x :: deque_spec c l' end
+  | false :: c =>
+      match rev l with [] => None :: deque_spec c l | x :: r' => Some x :: deque_spec c (rev r') end
+  end.
+
+Fixpoint all_codes (n : nat) : list (list bool) :=
+  match n with O => [[]] | S n' => flat_map (fun c => [true :: c; false :: c]) (all_codes n') end.
+
+Fixpoint mk_items (n : nat) : list entry :=
+  match n with O => [] | S n' => mk_items n' ++ [mkE [97; N.of_nat n'] 0 Value [N.of_nat n']] end.
+
+Definition oentry_eqb (a b : option entry) : bool :=
+  match a, b with Some x, Some y => entry_eqb x y | None, None => true | _, _ => false end.
+
+Fixpoint olist_eqb (a b : list (option entry)) : bool :=
+  match a, b with
+  | [], [] => true
+  | x :: a', y :: b' => oentry_eqb x y && olist_eqb a' b'
+  | _, _ => false
+  end.
+
+Example ping_pong_deque_bounded :
+  forallb (fun n => forallb (fun ri =>
+    let items := mk_items n in
+    let B := encode_block toy_hash ri 0 items in
+    forallb (fun c => match ping_pong c B with
+                      | Some r => olist_eqb r (deque_spec c items) | None => false end)
+            (all_codes (n + 1))) [1; 2; 3]) [1; 2; 3; 4; 5]%nat = true.
+Proof. vm_compute. reflexivity. Qed.
+
+Example decode_all_back_ex :
+  let items := mk_items 7 in
+  forallb (fun ri => match decode_all_back (encode_block toy_hash ri 0 items) with
+                     | Some r => olist_eqb (map Some r) (map Some (rev items)) | None => false end)
+          [1; 2; 3; 4; 7; 8; 16] = true.
+Proof. vm_compute. reflexivity. Qed.
+
 Print Assumptions compare_prefixed_slice_spec.
 Print Assumptions longest_shared_prefix_length_spec.
 Print Assumptions encode_bytes_wf.
 Print Assumptions datablock_roundtrip.
 Print Assumptions datablock_point_read.
+Print Assumptions datablock_roundtrip_tomb_value_refuted.
+Print Assumptions header_roundtrip.
